@@ -123,7 +123,30 @@ DESC5 = {
     "C20:A": ("lock-free scan of Prefix._known for float exponents in Prefix.__new__", "registration by another thread during the scan: RuntimeError"),
     "C20:B": ("Unit.__init__ rebuilds self.factors item by item", "second thread re-running __init__ while the first multiplies the unit"),
 }
+DESC6 = {
+    "C01:A": ("Unit.__pow__ single-factor fast path raises self.dimension to the COMBINED exponent", "a power of an already-powered single-factor unit not interned yet ((Furlong**2)**2)"),
+    "C02:A": ("Unit.derive builds a separate, non-interned object for a second name of a named combination", "Sievert: u * One is Gray, not Sievert"),
+    "C03:A": ("Quantity.__rtruediv__ accepts a Unit and returns (1 / self) * other", "Unit / Quantity yields the product dimension"),
+    "C04:A": ("_reduce_dimension tries smaller roots and returns the full gcd", "pure powers of named derived units (gal**2 -> L**2)"),
+    "C05:A": ("Quantity.unprefixed: exact Decimal scaling with int(prefix.exponent)", "Decimal magnitude under a mixed-base prefix (Kilo*Byte)"),
+    "C06:A": ("Quantity.__eq__ rejects operands of opposite signs before converting", "physically equal temperatures of opposite sign on different offset scales"),
+    "C07:A": ("Quantity + / - fall back to the commuted operation when the conversion is not found", "same dimension, no conversion either way: RecursionError"),
+    "C08:A": ("module-level set of (unit, destination) cul-de-sacs in the path search", "a conversion that walks into a single-neighbour unit, then a conversion starting from it"),
+    "C09:A": ("eu.py: a Reaumur scale through Dimension.scale plus an explicit 1.25 degC equivalence", "scale() silently declares 1 degRe = 1 K: the cycle disagrees by 25 %"),
+    "C10:A": ("convert rounds floats to 10 places after each offset hop", "magnitudes within picokelvins of a zero point"),
+    "C11:A": ("convert fast path for equal factors rescales by one base", "the same unit under an SI and an IEC prefix (Kibi*Bit -> Kilo*Bit)"),
+    "C12:A": ("Quantity.__eq__ fast path scaling by the float prefix ratio", "integers beyond 2**53 under different prefixes of one base: asymmetric =="),
+    "C13:A": ("str() of a prefixed named derived unit as prefix + its symbol, ignoring the unit's own prefix", "SI prefix times Gray: 'uGy' for Milli*Gray"),
+    "C14:A": ("Measurement.in_unit converts the uncertainty as a difference of two converted points", "+ / - across units with |x| / sigma beyond 1e7"),
+    "C15:A": ("Quantity.__from_json__ decodes integral strings as int", "Decimal('5') comes back as int 5 through JSON"),
+    "C17:A": ("Prefix.__new__ raises ValueError for non-finite float exponents", "mixed-base units with exponents of 306-308 digits"),
+    "C18:A": ("Level.quantify floor-divides int exponents by the power ratio", "odd int levels of unprefixed root-power units (3 Bel re 1 V)"),
+    "C19:A": ("Dimension.scale rolls back by name and symbol when anything fails", "scale() with a taken name or symbol unbinds the existing owner"),
+    "C20:A": ("per-base bucket of Prefix created outside the lock", "two threads constructing the first prefix of a new base"),
+}
 ROUND, SRC, SUF = 3, "/tmp/seed3files", ""
+if os.environ.get("SEEDROUND") == "6":
+    DESC, ROUND, SRC, SUF = DESC6, 6, "/tmp/seed6files", "6"
 if os.environ.get("SEEDROUND") == "5":
     DESC, ROUND, SRC, SUF = DESC5, 5, "/tmp/seed5files", "5"
 if os.environ.get("SEEDROUND") == "4":
